@@ -50,7 +50,7 @@ def gen_cases(rng, tier, rnd):
     n = {'quick': 200, 'thorough': 1000, 'selftest': 50}[tier]
     cases = []
     while len(cases) < n:
-        eps = rng.choice(['', 'ε', '_', 'e', '', 'ε'])
+        eps = rng.choice(['', 'ε', '_', 'e', '', 'ε', 'lambda', 'eps', 'ab'])
         qstyle_p = rng.choice([0.0, 0.3, 0.6])
         used = set()
         steps = []
